@@ -78,7 +78,7 @@ struct Parsed {
     deletes: Vec<String>,
 }
 
-fn parse(o: &RunObs) -> Parsed {
+fn parse(o: &RunObs, names: &std::collections::BTreeSet<String>) -> Parsed {
     let mut p = Parsed { kind: "RAN", plan: None, complete: None, sends: vec![], deletes: vec![] };
     for l in o.stderr.lines() {
         if let Some(r) = l.strip_prefix("Plan: ") {
@@ -98,30 +98,35 @@ fn parse(o: &RunObs) -> Parsed {
         }
     }
     if p.kind == "DRYRUN" {
-        // records start with "send   " / "delete " at line starts; a name with a newline continues on the next line
+        // records are `send   <name>\n` / `delete <name>\n`; a name may itself contain (or end in) newlines, so records are
+        // recognised against the names that exist in the two trees (longest first), never by splitting on newlines
         let body = so.split("(dry run) nothing was modified").next().unwrap_or("");
-        let mut cur: Option<(bool, String)> = None;
-        for l in body.split('\n') {
-            if let Some(r) = l.strip_prefix("send   ") {
-                if let Some((s, n)) = cur.take() { if s { p.sends.push(n) } else { p.deletes.push(n) } }
-                cur = Some((true, r.to_string()));
-            } else if let Some(r) = l.strip_prefix("delete ") {
-                if let Some((s, n)) = cur.take() { if s { p.sends.push(n) } else { p.deletes.push(n) } }
-                cur = Some((false, r.to_string()));
-            } else if let Some((_, n)) = cur.as_mut() {
-                if !l.is_empty() || body.contains(&format!("{}\n{}", n, l)) { n.push('\n'); n.push_str(l); }
+        let mut known: Vec<&String> = names.iter().collect();
+        known.sort_by_key(|n| std::cmp::Reverse(n.len()));
+        let mut i = 0usize;
+        while i < body.len() {
+            let rest = &body[i..];
+            let rec = if let Some(r) = rest.strip_prefix("send   ") { Some((true, r)) } else if let Some(r) = rest.strip_prefix("delete ") { Some((false, r)) } else { None };
+            let mut adv = None;
+            if let Some((is_send, r)) = rec {
+                if let Some(n) = known.iter().find(|n| r.starts_with(n.as_str()) && r[n.len()..].starts_with('\n')) {
+                    if is_send { p.sends.push((*n).clone()) } else { p.deletes.push((*n).clone()) }
+                    adv = Some(7 + n.len() + 1);
+                } else {
+                    // a name that exists in neither tree: keep the line as printed so that the comparison fails visibly
+                    let l = r.split('\n').next().unwrap_or("").to_string();
+                    adv = Some(7 + l.len() + 1);
+                    if is_send { p.sends.push(l) } else { p.deletes.push(l) }
+                }
             }
-        }
-        if let Some((s, n)) = cur.take() {
-            let n = n.trim_end_matches('\n').to_string();
-            if s { p.sends.push(n) } else { p.deletes.push(n) }
+            i += adv.unwrap_or_else(|| rest.find('\n').map(|x| x + 1).unwrap_or(rest.len()));
         }
     }
     p
 }
 
 fn gen_name(r: &mut Rng) -> String {
-    let hostile = ["a", "b", "x y", "it's", "q\"d", "b\\s", "$HOME", "st*r", "wh?t", "[br]", "new\nline", "-dash", "ünï", ".hid", "a.b", "*", "c*d", "é", "日.b"];
+    let hostile = ["a", "b", "x y", "it's", "q\"d", "b\\s", "$HOME", "st*r", "wh?t", "[br]", "new\nline", "-dash", "ünï", ".hid", "a.b", "*", "c*d", "é", "日.b", "trail ", "nl\n", " lead", "tab\tx"];
     r.pick(&hostile).to_string()
 }
 
@@ -231,7 +236,8 @@ pub fn main(a: Args) -> i32 {
         // ---- 1. dry run
         let mut dargs = args.clone(); dargs.push("-n".into()); dargs.push(sarg.clone()); dargs.push(darg.clone());
         let o1 = run_sync(&cx, &dargs, &[]);
-        let p1 = parse(&o1);
+        let names: std::collections::BTreeSet<String> = src_before.keys().chain(dst_before.keys()).cloned().collect();
+        let p1 = parse(&o1, &names);
         if read_tree(&srcd) != src_before || read_tree(&dstd) != dst_before {
             nfail += 1;
             out.line("specfail.txt", &format!("{} C15 --dry-run changed a tree ({})", id, class));
@@ -245,7 +251,7 @@ pub fn main(a: Args) -> i32 {
         // ---- 2. the real run
         let mut rargs = args.clone(); rargs.push(sarg.clone()); rargs.push(darg.clone());
         let o2 = run_sync(&cx, &rargs, &[]);
-        let p2 = parse(&o2);
+        let p2 = parse(&o2, &names);
         let dst_after = read_tree(&dstd);
         let src_after = read_tree(&srcd);
         let (sent, failed) = p2.complete.map(|c| (c.0, c.3)).unwrap_or((0, 0));
@@ -315,7 +321,7 @@ pub fn main(a: Args) -> i32 {
             }
             // ---- 3. C14: the same command again is a no-op
             let o3 = run_sync(&cx, &rargs, &[]);
-            let p3 = parse(&o3);
+            let p3 = parse(&o3, &names);
             let again_dst = read_tree(&dstd);
             let quiet = p3.kind == "UPTODATE" || p3.kind == "NOFILES" || p3.plan.map(|x| x.0 == 0 && x.2 == 0).unwrap_or(false);
             if !quiet || again_dst != dst_after || read_tree(&srcd) != src_before || o3.code != Some(0) {
